@@ -72,7 +72,7 @@ def run(ctx):
     pressure(ctx, M)
     # ---- R03.3 / R03.4 expiry and id guard (the parts of C10 that are necessary for 'no spurious loss') --------
     share(ctx, c10, {"R10.2": "R03.3", "R10.7": "R03.3", "R10.5": "R03.4"}, only=("hook-iff-not-kept", "retain-iff-now-le-expiry", "now-is-clock-now",
-                                                                    "release-and-hook-only-if-id-present", "ids-fresh"))
+                                                                    "release-and-hook-only-if-id-present", "ids-fresh", "hook-under-total-weight-lock"))
     stale_entries(ctx, T)
     no_overwrite(ctx, "R03.5")
     # ---- R03.6 the hooks remove by the key recorded with the released id ------------------------------------
